@@ -44,8 +44,17 @@ type byteReader struct {
 
 func (r *byteReader) ReadByte() (byte, error) {
 	var buff = [1]byte{}
-	_, err := r.Read(buff[:])
-	return buff[0], err
+	// a Read may return (0, nil): nothing happened, it must not be taken for a zero byte
+	for i := 0; i < 100; i++ {
+		n, err := r.Read(buff[:])
+		if n > 0 {
+			return buff[0], nil
+		}
+		if nil != err {
+			return 0, err
+		}
+	}
+	return 0, io.ErrNoProgress
 }
 
 // ExactReader returns a Reader that reads exactly n bytes from r: like io.LimitReader it stops
